@@ -558,3 +558,89 @@ func RRuneCut(c *core.Ctx) {
 		c.Anchor("callers of commonPrefixLen")
 	}
 }
+
+// ---------------------------------------------------------------------------
+// R-FAILFIRST: in the tri-state protocol of tryFindFirstCharClass (1 = done,
+// 0 = failed: the collected set cannot be trusted, -1 = nullable: keep looking)
+// failure dominates.  Where the results of two branches are combined, "one of
+// them is 0" has to be tested before "one of them is -1": a branch whose
+// characters could not be merged into the set makes the whole set unusable
+// even if the other branch is nullable.
+// ---------------------------------------------------------------------------
+
+func RFailFirst(c *core.Ctx) {
+	c.Rule("R-FAILFIRST", "in tryFindFirstCharClass, wherever two recursive results a and b are combined by a chain of if statements, the statement testing `a == 0 || b == 0` (failure) comes before the one testing `a == -1 || b == -1` (nullable)", 1)
+	p := c.P
+	syn := p.Pkg("syntax")
+	info := syn.TypesInfo
+	fn := p.LookupFunc("syntax", "tryFindFirstCharClass")
+	fd, _ := p.DeclOf(fn)
+	if fd == nil {
+		c.Anchor("syntax.tryFindFirstCharClass")
+		return
+	}
+	c.Visit("syntax.tryFindFirstCharClass")
+	n := 0
+	var visit func(list []ast.Stmt)
+	visit = func(list []ast.Stmt) {
+		// locals assigned from recursive calls in this list
+		rec := map[types.Object]bool{}
+		for _, st := range list {
+			if as, ok := st.(*ast.AssignStmt); ok && len(as.Lhs) == 1 && len(as.Rhs) == 1 {
+				if call, ok := as.Rhs[0].(*ast.CallExpr); ok && core.Callee(info, call) == fn {
+					if id, ok := as.Lhs[0].(*ast.Ident); ok {
+						rec[info.ObjectOf(id)] = true
+					}
+				}
+			}
+		}
+		if len(rec) >= 2 {
+			posOf := func(k int64) token.Pos {
+				for _, st := range list {
+					ifs, ok := st.(*ast.IfStmt)
+					if !ok {
+						continue
+					}
+					cnt := 0
+					ast.Inspect(ifs.Cond, func(x ast.Node) bool {
+						if be, ok := x.(*ast.BinaryExpr); ok && be.Op == token.EQL {
+							if id, ok := ast.Unparen(be.X).(*ast.Ident); ok && rec[info.ObjectOf(id)] {
+								if v, ok := core.ConstInt(info, be.Y); ok && v == k {
+									cnt++
+								}
+							}
+						}
+						return true
+					})
+					if cnt >= 2 {
+						return ifs.Pos()
+					}
+				}
+				return token.NoPos
+			}
+			fail, null := posOf(0), posOf(-1)
+			if fail != token.NoPos || null != token.NoPos {
+				n++
+				c.Check(fail != token.NoPos && null != token.NoPos && fail < null, fmt.Sprintf("tryFindFirstCharClass / combination #%d of two branch results tests failure before nullable", n), list[0].Pos(),
+					"the nullable test (== -1) precedes the failure test (== 0): a branch whose characters could not be added to the set is hidden by a nullable sibling, and the published first-character set lacks that branch's characters (a?(?(?=.)[^bd]|)c does not match \"xc\")")
+			}
+		}
+		for _, st := range list {
+			ast.Inspect(st, func(x ast.Node) bool {
+				switch b := x.(type) {
+				case *ast.BlockStmt:
+					visit(b.List)
+					return false
+				case *ast.CaseClause:
+					visit(b.Body)
+					return false
+				}
+				return true
+			})
+		}
+	}
+	visit(fd.Body.List)
+	if n == 0 {
+		c.Anchor("combinations of two branch results in tryFindFirstCharClass")
+	}
+}
